@@ -26,4 +26,19 @@ TEXTS = {
   "note": "Trusted base: porcupine v1.3.0, the held-bit model, the race detector. Text is judged only for formats with exactly one integer verb; names change goroutine only through a channel (unordered releases of one *Name are misuse).",
   "technique": "runtime monitoring: linearizability checking of recorded histories (porcupine, partitioned by id) + online uniqueness monitor + race detector",
  },
+ "C03": {
+  "text": "Round-model monitor on a real Conn/Channel: histories of 2-6 request/response rounds over 14 response shapes (rows, several result sets, trailing DONE with status bits, DONE missing, params+status, EED and ENVCHANGE at package boundaries incl. directly before ROW/PARAMS, only-swallowed packages, empty response) x 6 packetisation classes x consumer policies (NextPackage loop; NextPackageUntil with the callback returning true / io.EOF / an error at every package index). Every ordered pair of shapes is enumerated as consecutive rounds, all abort points x outcomes per shape, plus 1.5k / 150k seeded histories. Per round the consumer must see exactly the model's list (server packages minus never-delivered ones plus one library-supplied final DONE iff needed), nothing may be left queued, no error may surface, an aborting callback's error must come back. Held-on-observed.",
+  "note": "Trusted base: the round model (c03Expected) and the srv encoder. The consumer starts after the reader has processed the response (transport barrier); a blocked consumer is released by a 2 s watchdog and judged structurally (reader idle, nothing queued). DONEPROC/DONEINPROC are never generated with status 0 (the library cannot tell them from DONE).",
+  "technique": "runtime monitoring: executable round model compared against recorded consumer histories, enumerated shape pairs + seeded histories",
+ },
+ "C16": {
+  "text": "Differential oracle with math/big over all 779 (precision, scale) pairs: boundary values (0, +-1, +-10^k, +-(10^k-1)) exhaustively and seeded digit strings in many spellings, three classes (must-accept with exact unscaled value, must-reject, unspecified-but-never-a-changed-value), String() against the exact expansion and shape, SetString(String()) round trip, NewDecimal argument validation; all under a panic monitor. 2.1M quick / 16.5M thorough evaluations. Held-on-observed.",
+  "note": "Trusted base: math/big. Over-long but representable spellings (extra zeros, '+', '.5', '5.') may be accepted exactly or rejected; only a changed value is judged. Precision 0 is outside the property.",
+  "technique": "runtime monitoring: differential testing against a math/big reference, exhaustive over (precision, scale), panic monitor",
+ },
+ "C19": {
+  "text": "Interval-model oracle with an independent semantic-version parser over a grid of 36 versions (pre-release, build suffixes, 1.10 vs 1.9): all capabilities with 0..2 ranges exhaustively, 3..4 seeded, all permutations of ranges and capabilities, pairing in NewCapability, error clauses (inverted / zero-width ranges, unparsable versions or bounds when evaluated), default and custom comparers. 1.25M quick / 23M thorough evaluations. Held-on-observed.",
+  "note": "Trusted base: own semver comparator (cross-checked against the default comparer on the grid). Ranges after the first containing one are not evaluated by design and not judged; a range with no bound at all is counted, not judged; semver spellings on which parsers legitimately differ are kept off the judged grid.",
+  "technique": "runtime monitoring: executable interval reference model, exhaustive small range sets + permutation metamorphic checks",
+ },
 }
